@@ -4,3 +4,6 @@ From Coq Require Import ZArith Bool List.
 From TucModel Require Import Base.Bytes Model.Scan Tie.RsPrelude.
 
 Definition find_iter_z (needle haystack : bytes) : list Z := map Z.of_nat (find_iter needle haystack).
+
+(** [slice.ends_with(needle)] *)
+Definition ends_with (d l : bytes) : bool := starts_with (rev d) (rev l).
